@@ -1463,3 +1463,5 @@ mut("revert_D20", ["C17"], "ORD-15|db::DB::destroy_database|lock-file-unlinked-w
     note="destroy_database releases the lock before it unlinks LOCK (defect D20)")
 mut("revert_D21", ["C15", "C12"], "ORD-23|logs::LogReader::read_physical_record|a-completely-read-fragment-is-always-counted", patch="revert_D21_fragment_counted_after_parse.diff",
     note="a fragment that fails its checksum is not counted: the reader loses its alignment with the file (defect D21)")
+mut("memfs_rename_keeps_source", ["C02", "C16"], "FS-3|<fs::fs_mem::InMemoryFileSystem as fs::traits::FileSystem>::rename|moves-the-file", patch="memfs_rename_keeps_source.diff",
+    note="in-memory rename copies instead of moving: the temp file of the CURRENT switch stays behind")
